@@ -422,3 +422,48 @@ Proof.
     pose proof (Hlive X1 HX1) as H1. pose proof (Hlive X2 HX2) as H2. rewrite Ee in H1.
     rewrite <- E1, <- E2. f_equal. eapply gap_start_inj; eauto. apply (e_gap _ _ _ (Hecu (l_ecu X2))).
 Qed.
+
+(* ------------------------------------------------------------------ the boundary of the time domain *)
+(* Lifecycle::new keeps the timestamp of the first message exactly when it does not exceed the reception time
+   (equality included: boot time plus delay = 0) *)
+Lemma new_lc_keeps_ts_iff id m : m_creq m = false ->
+  (l_max_ts (new_lc id m) = m_ts m <-> m_ts m <= m_rt m).
+Proof.
+  intros Hcr. unfold new_lc. rewrite Hcr. destruct (m_rt m <? m_ts m) eqn:E; cbn [l_max_ts].
+  - apply N.ltb_lt in E. split; intros H; lia.
+  - apply N.ltb_ge in E. split; intros H; [exact E|reflexivity].
+Qed.
+
+Lemma new_lc_boundary id m : m_creq m = false -> m_ts m <= m_rt m ->
+  l_start (new_lc id m) = m_rt m - m_ts m /\ l_min_ts (new_lc id m) = m_ts m /\ l_max_ts (new_lc id m) = m_ts m /\
+  end_time (new_lc id m) = m_rt m.
+Proof.
+  intros Hcr Hle. unfold new_lc, end_time. rewrite Hcr. destruct (m_rt m <? m_ts m) eqn:E; [apply N.ltb_lt in E; lia|].
+  cbn [l_start l_min_ts l_max_ts l_last_rt]. repeat split; try reflexivity.
+  destruct (m_ts m =? 0) eqn:Z; [reflexivity|lia].
+Qed.
+
+Lemma CleanFrom_msgs ms : forall h, CleanFrom h ms -> forall y, In y ms -> CleanMsg y.
+Proof.
+  induction ms as [|x r IH]; intros h HC y Hy; [destruct Hy|]. destruct HC as [[HCx _] HCr].
+  destruct Hy as [<-|Hy]; [exact HCx|exact (IH _ HCr y Hy)].
+Qed.
+
+(* the clean-trace theorem on the boots whose boot time plus transport delay is 0 (reception time = timestamp for all
+   their messages): the lifecycle starts at 0 and ends at the largest timestamp of the boot *)
+Corollary clean_zero_boot_exact first_id ms :
+  0 < first_id -> CleanStream ms ->
+  forall x, In x (map fst (fst (detect first_id [] ms))) -> m_rt x = m_ts x ->
+  exists L, tbl_get (m_lc x) (snd (detect first_id [] ms)) = Some L /\ l_ecu L = m_ecu x /\ l_start L = 0 /\
+            end_time L = l_max_ts L /\
+            (forall y, In y ms -> m_ecu y = m_ecu x -> m_rt y = m_ts y -> m_ts y <= l_max_ts L) /\
+            (exists y, In y ms /\ m_ecu y = m_ecu x /\ m_rt y = m_ts y /\ m_ts y = l_max_ts L).
+Proof.
+  intros Hpos HC x Hx Hz. destruct (clean_boots_exact first_id ms Hpos HC) as [H1 _].
+  destruct (H1 x Hx) as [L [Hg [He [Hs [Hend [Hle [y [Hy [Hye [Hyb Hyt]]]]]]]]]].
+  assert (Hbx : boot x = 0) by (unfold boot; rewrite Hz; apply N.sub_diag).
+  exists L. split; [exact Hg|]. split; [exact He|]. split; [congruence|]. split; [rewrite Hend, Hs, Hbx; apply N.add_0_l|]. split.
+  - intros y0 Hy0 Hye0 Hz0. apply Hle; auto. unfold boot at 1. rewrite Hz0, N.sub_diag. symmetry. exact Hbx.
+  - exists y. split; [exact Hy|]. split; [exact Hye|]. split; [|exact Hyt].
+    destruct (CleanFrom_msgs ms [] HC y Hy) as [_ [_ Hley]]. rewrite Hbx in Hyb. unfold boot in Hyb. lia.
+Qed.
